@@ -731,12 +731,21 @@ def run(ctx):
         rp = json.load(open(ctx.replay)).get("replay", {})
         if "case" in rp:
             cases = [rp["case"]] + cases[:20]
-    rc, impl, err, end = run_impl(ctx, exe, cases)
-    if rc != 0 or len(impl) != len(cases):
+    impl, end, start = [], None, 0
+    for attempt in range(6):
+        rc, part, err, end = run_impl(ctx, exe, cases[start:])
+        impl += part
+        if rc == 0 and len(impl) == len(cases):
+            break
         # a crash (sanitizer report, abort): the case after the last answered one is the input
         idx = min(len(impl), len(cases) - 1)
         ctx.violation("crash:" + cases[idx][:60], "harness stopped (exit %s) at case %d: %s ... %s" % (rc, idx, cases[idx][:200], err[-1200:]),
                       dict(case=cases[idx], stderr=err[-3000:]))
+        impl = impl[:idx] + ["CRASH"]
+        start = idx + 1
+        end = None
+        if start >= len(cases):
+            break
     if end is not None and end != "END 0":
         ctx.violation("memory-balance", "sc_memory_status at the end of the run: %s" % end, dict(case="(whole run)", end=end))
     model = []
